@@ -56,9 +56,11 @@ DoCall(r) ==
         \* a password relation the harness could not decide (convention for characters without a PDFDocEncoding code):
         \* the impl-shaped layer is not stepped (and stays unsynchronised until the next Reset); this is not drift
         uns == r.rel.u = "unsure" \/ r.rel.o = "unsure" \/ cfg.e.u = "unsure" \/ cfg.e.o = "unsure"
+        \* an Edit the driver issued although the document is encrypted is refused by the harness: nothing happens
+        refused == synced /\ r.call = "Edit" /\ ~Callable(s, c) /\ r.res = "Err" /\ r.same
         can == synced /\ Callable(s, c) /\ ~uns
-        t  == Step(cfg, s, c)
-        agree == can /\ Agree(Observe(s, t, c), ev)
+        t  == IF refused THEN s ELSE Step(cfg, s, c)
+        agree == refused \/ (can /\ Agree(Observe(s, t, c), ev))
     IN /\ j' = v.j
        /\ s' = IF agree THEN t ELSE s
        /\ synced' = agree
